@@ -433,6 +433,29 @@ def warm_block_analysis(prog: Program, rep: Report, step_word: list[str], rule: 
             and unparse(e.node.value.func).endswith("step2time")
             for e in pre
         )
+        # ... and the clock must be the time OF step 0: the argument of step2time is the step counter after it
+        # was reset (or a literal 0), not the value left by the constructor (-1)
+        cur = None  # value of timer.step as far as the block has set it
+        time_of = None
+        for e in pre:
+            if not isinstance(e.node, ast.Assign):
+                continue
+            t = unparse(e.node.targets[0])
+            if t.endswith(".step"):
+                try:
+                    cur = ast.literal_eval(e.node.value)
+                except Exception:  # noqa: BLE001
+                    cur = "?"
+            elif t.endswith(".time") and isinstance(e.node.value, ast.Call) and unparse(e.node.value.func).endswith("step2time") and e.node.value.args:
+                a = e.node.value.args[0]
+                if unparse(a).endswith(".step"):
+                    time_of = cur if cur is not None else "the constructor's step (-1)"
+                else:
+                    try:
+                        time_of = ast.literal_eval(a)
+                    except Exception:  # noqa: BLE001
+                        time_of = "?"
+        rep.check(rule, init.qual, "the clock of the catch-up step is the time of step 0", time_of == 0 and cur == 0, what_bad=f"timer.time is set from step2time({time_of}) and timer.step ends as {cur}: every time written by the restarted run is off by one step", what_ok="time = step2time(0), step = 0", loc=init.loc(block))
         rep.check(rule, init.qual, "clock set to step 0 before the catch-up step", step0 and time0, what_bad="the warm block must set timer.step = 0 and timer.time = step2time(step) before releasing/forcing", what_ok="step = 0, time = step2time(step)", loc=init.loc(block))
         post_assign_step = [
             e for e in evs[first_upd:] if e.kind == "assign" and isinstance(e.node, ast.Assign) and unparse(e.node.targets[0]).endswith((".step", ".time"))
@@ -471,6 +494,7 @@ def run(prog: Program, rep: Report, tier: str) -> None:
     from ..share import share
 
     share(prog, rep, "C06", ("R06.3", "R06.6"), "R19.7", "the record written in a step carries the clock of that step and only the particles alive in it", 4)
+    share(prog, rep, "C18", ("R18.5",), "R19.8", "the modules named in the configuration are the ones that run: grid / forcing module defaults of configure_v2", 2, only=lambda o: "module" in o.construct.lower())
 
 
 
